@@ -65,7 +65,7 @@ def run(tier):
     r0 = vf.tlc_must_pass('RegpEmitMC.tla', 'RegpEmitMC.cfg', 'regpemit', heap='16g',
                           sink=lambda b: cases.append(b[3:]) if b.startswith('C;;') else None)
     v.add_tlc(r0)
-    res1 = vf.run_scripts('regp', [cases[i:i + 500] for i in range(0, len(cases), 500)], 'C08', name='emc')
+    res1 = vf.run_scripts('regp', [cases[i:i + 500] for i in range(0, len(cases), 500)], 'C08', name='emc', flavours=3, flav_every=25)
     v.exec_problems(res1, 'regp')
     v.cov['traces_validated_against_impl'] += len(cases)
     v.cov['evaluations'] += res1.checked
@@ -74,7 +74,7 @@ def run(tier):
     ss = []
     for rnd in vf.rounds(tier, 8):
         ss += list(scripts(rnd, quick))
-    vf.trace_flow(v, 'RegpTrace.tla', 'RegpTrace.cfg', 'regp', ss, 'emit')
+    vf.trace_flow(v, 'RegpTrace.tla', 'RegpTrace.cfg', 'regp', ss, 'emit', flavours=3)
     v.cov['distinct_nontrivial'] += len(set(l for s in ss for l in s))
     v.cov['rule'] = ('all emit entry points x 2 transports x 2 word sizes x boundary addresses x sizes x payloads with SLIP control octets x sequence numbers; '
                      'each recorded call validated by TLC (EmitOK). distinct_nontrivial = distinct emit calls.')
